@@ -245,6 +245,56 @@ fn encode_field_lists(thorough: bool) -> Vec<Vec<Field>> {
             singles.push((n.clone(), v));
         }
     }
+    // near misses of every static name: one letter in the other case, all upper case, one byte more, one byte
+    // less at either end - with the static values of the original name (a name+value or name hit in a sloppy lookup)
+    for sn in static_names() {
+        let b = sn.as_bytes();
+        let mut variants: Vec<Vec<u8>> = Vec::new();
+        if let Some(i) = b.iter().position(|c| c.is_ascii_lowercase()) {
+            let mut v = b.to_vec();
+            v[i] = v[i].to_ascii_uppercase();
+            variants.push(v);
+        }
+        if let Some(i) = b.iter().rposition(|c| c.is_ascii_lowercase()) {
+            let mut v = b.to_vec();
+            v[i] = v[i].to_ascii_uppercase();
+            variants.push(v);
+        }
+        variants.push(b.to_ascii_uppercase());
+        let mut v = b.to_vec();
+        v.push(b'x');
+        variants.push(v);
+        variants.push(b[..b.len() - 1].to_vec());
+        variants.push(b[1..].to_vec());
+        let mut v = b.to_vec();
+        v.insert(0, b':');
+        variants.push(v);
+        variants.sort();
+        variants.dedup();
+        let mut values: Vec<Vec<u8>> = rq::STATIC_TABLE.iter().filter(|e| e.0 == sn).map(|e| e.1.as_bytes().to_vec()).collect();
+        values.push(b"v".to_vec());
+        // and the static values in the other case under the exact name
+        for e in rq::STATIC_TABLE.iter().filter(|e| e.0 == sn && !e.1.is_empty()) {
+            let up = e.1.as_bytes().to_ascii_uppercase();
+            if up != e.1.as_bytes() {
+                singles.push((b.to_vec(), up));
+            }
+            let low = e.1.as_bytes().to_ascii_lowercase();
+            if low != e.1.as_bytes() {
+                singles.push((b.to_vec(), low));
+            }
+        }
+        values.sort();
+        values.dedup();
+        for n in &variants {
+            if static_names().iter().any(|s| s.as_bytes() == &n[..]) {
+                continue;
+            }
+            for v in &values {
+                singles.push((n.clone(), v.clone()));
+            }
+        }
+    }
     // every single byte value, for a static name, a non-static name and the empty name
     for n in [&b":path"[..], b"x", b"", b"cookie"] {
         for b in 0..=255u8 {
@@ -378,7 +428,7 @@ pub fn run(args: &Args) -> i32 {
     let mut rep = Report::new("C11", args.tier, args.seed, "exploration");
     rep.exhaustive = true;
     rep.rule = format!(
-        "encode: every single field over (every distinct static-table name, 'x', '', a 130-byte name, 'X-Upper', ':unknown') x (the static values of that name, '', 'v', near-miss values, fillers of length 2/126..129/254..256/300, every single byte value for 4 names, every byte value inside a literal name), all ordered pairs over a reduced set{}; decode: ALL byte strings of <= {} bytes after the prefix 00 00 and of <= {} bytes after the prefixes 00 7f 00 / 01 00 / 00 80 / 00 81; plus the structured set: every representation x index in 0..101 and at every integer boundary x N bit x H bit x value lengths around the 7-bit prefix x 5 section prefixes x every truncation x a following field line, over-long integer continuations in every integer position. Oracle refimpl::qpack. Non-trivial = sections longer than the 2-byte prefix.",
+        "encode: every single field over (every distinct static-table name, 'x', '', a 130-byte name, 'X-Upper', ':unknown'; plus 7 near-miss variants of every static name: one letter in the other case, upper case, one byte more / less, and static values in the other case) x (the static values of that name, '', 'v', near-miss values, fillers of length 2/126..129/254..256/300, every single byte value for 4 names, every byte value inside a literal name), all ordered pairs over a reduced set{}; decode: ALL byte strings of <= {} bytes after the prefix 00 00 and of <= {} bytes after the prefixes 00 7f 00 / 01 00 / 00 80 / 00 81; plus the structured set: every representation x index in 0..101 and at every integer boundary x N bit x H bit x value lengths around the 7-bit prefix x 5 section prefixes x every truncation x a following field line, over-long integer continuations in every integer position. Oracle refimpl::qpack. Non-trivial = sections longer than the 2-byte prefix.",
         if thorough { ", all triples over a smaller set" } else { "" },
         if thorough { 4 } else { 3 },
         if thorough { 3 } else { 2 },
